@@ -4,7 +4,7 @@ PROP = {
     "level": "fault_enumeration",
     "level_text": "Fault enumeration over collector scripts: the real Otlp emitter runs against a scripted local collector whose per-request behaviour (acknowledge with 200/202/204 or grpc-status 0, non-2xx, non-zero grpc-status in a trailers frame or in a trailers-only response, a bare non-2xx :status on gRPC, stall beyond the request timeout before answering or at a later phase of the response (HTTP/1: inside the head, after a head that announces a body, inside the body; gRPC: after the response HEADERS, inside the message prefix, after the message before the trailers), reset on accept, reset before the body, close after the body, refuse connections, whole-scenario outage of one signal) is drawn per scenario, crossed with a complete walk over transport (HTTP+JSON, HTTP+protobuf, gRPC) x gzip on/off x the seven non-empty signal subsets, and bursts sized so that one batch spans 1..n size-limited requests. A second family of scenarios makes one batch fail on every attempt until the emitter gives it up (the budget is read off the collector: 11 attempts observed) and then lets the next batch - on the same signal, on another signal afterwards, or on another signal meanwhile - fail exactly once on its first attempt with every failure kind. Each scenario is judged by vid accounting against the collector's recorded decisions and stamps. Every fault kind of each transport is walked systematically (first or second request after the primer) and additionally drawn at random; the fault space as a whole is sampled (2x10^2 scenarios quick, 8x10^3 thorough; the evidence counts which fault classes were actually hit by a request), not exhausted. Held-on-what-was-observed.",
     "level_note": "Trusts the scripted collector (harness/monx/src/shared/collector.rs: hand-written HTTP/1.1 over tokio, h2 server, flate2, prost / serde_json decoders). Back-off and request timeout are shortened through the cfg(emit_rs_emit_verif) hooks (delay divisor 50..200, request timeout 250..300 ms); the logical back-off state is untouched.",
-    "technique": "runtime monitoring with fault injection: vid accounting at a scripted local OTLP collector (per-request fault scripts), judged after blocking_flush on logical stamps",
+    "technique": "runtime monitoring with fault injection: vid accounting at a scripted local OTLP collector (per-request fault scripts), judged after blocking_flush on logical stamps; AddressSanitizer build of the same monitor (thorough tier)",
     "assumptions": [
         "scripts inject fewer failures per batch than the emitter's retry budget (10); an endpoint that saw more than 9 unacknowledged requests is not judged for delivery (giving up is C08)",
         "exactly-once is required when nothing failed in the scenario (scripted faults, the emitter's own failure counters and the collector's view all agree); under failures an unacknowledged attempt and its acknowledged retry may carry the same events (at-least-once), but no event of an ACKNOWLEDGED request may appear in a later request - judged when the emitter's count of successful requests equals the number of acknowledgements the collector wrote (an acknowledgement lost to a client-side timeout under load is legitimately retried)",
@@ -16,5 +16,8 @@ PROP = {
     ],
     "lanes": [
         native("c12", pkg="monx", timeout={"quick": 900, "thorough": 3600}),
+        # AddressSanitizer build of the same monitor (thorough only): the HTTP client has unsafe pin projections
+        # and an uninitialised read buffer (client/http.rs) on every response path the collector scripts drive
+        san("asan", "c12", pkg="monx", scale=8, timeout={"thorough": 3600}),
     ],
 }
